@@ -1,10 +1,157 @@
+"""C11 - node-pressure eviction takes only eligible victims, in order, and only as needed (family Evict).
+
+MC     specs/Evict/MC_*.cfg      the loop model (repaired form) over bounded universes of cases: every call it makes is
+                                 allowed by the property-level predicates, its account equals the sum over the victims
+Go     three in-package harnesses run the REAL code with a recording EvictionExecutor:
+         plugins/util        KillAndEvictPods on enumerated + seeded random tasks (order = the list handed in)
+         plugins/memoryevict real buildEvictTask (target, eligibility, sort, per-pod release) + real loop, 3 strategies
+         plugins/cpuevict    the same for the 3 cpu strategies, 1-3 simultaneous tasks
+Trace  specs/Evict/EvictTrace.tla  every seen / evict / ret event must be a step the property level allows
+"""
+
+
+# ------------------------------------------------------------------------------------------------------------------
+# Diagnostic label of a rejected event (which clause of the property the call breaks).  The verdict was TLC's; this
+# mirror of Evict.tla only names the clause for the log / known-finding key.  When TLC's own clause report is
+# available (explain pass of vlib, first few rejections) it is used instead.
+def _val(m, k):
+    return m.get(k, 0) if isinstance(m, dict) else 0
+
+
+def _contrib(cs, T, p, r):
+    best = 0
+    for t in cs["tasks"]:
+        if t["tt"] == T:
+            c = t.get("c") or {}
+            best = max(best, _val(c.get(p) or {}, r))
+    return best
+
+
+def _released(cs, T, r, V):
+    return sum(_contrib(cs, T, p, r) for p in V)
+
+
+def _short(cs, t, V):
+    need = t.get("need") or {}
+    return [r for r, n in need.items() if n > 0 and _released(cs, t["tt"], r, V) < n]
+
+
+def _useful(cs, t, p, V):
+    return any(_contrib(cs, t["tt"], p, r) > 0 for r in _short(cs, t, V))
+
+
+def _ep(a):
+    return a["ep"] if a.get("hasEp") else 0
+
+
+def _lp(a):
+    return a["lp"] if a.get("hasLp") else a["prio"]
+
+
+def _before(cs, t, x, y):
+    k = t["kind"]
+    if k == "list":
+        return t["list"].index(x) < t["list"].index(y)
+    a, b = cs["pods"][x], cs["pods"][y]
+    if k == "prio_used":
+        return (_ep(a), a["prio"], _lp(a), -a["used"]) < (_ep(b), b["prio"], _lp(b), -b["used"])
+    if k == "prio_req":
+        return (_ep(a), a["prio"], _lp(a), -a["req"]) < (_ep(b), b["prio"], _lp(b), -b["req"])
+    if k == "be_mem":
+        return (a["prio"], -a["used"]) < (b["prio"], -b["used"])
+    if k == "be_cpu":
+        na, da = (a["used"], a["breq"]) if a["breq"] > 0 else (0, 1)
+        nb, db = (b["used"], b["breq"]) if b["breq"] > 0 else (0, 1)
+        return a["prio"] < b["prio"] or (a["prio"] == b["prio"] and na * db > nb * da)
+    return False
+
+
+def _eligible(cs, t, p):
+    if p not in cs["pods"]:
+        return False
+    a, k = cs["pods"][p], t["kind"]
+    if k == "list":
+        return p in t["list"]
+    allowed = (not a["hasPolicy"]) or (t["feature"] in a["policy"])
+    if k in ("be_mem", "be_cpu"):
+        return a["qos"] == "BE" and allowed
+    return a["prio"] <= t["thr"] and a["evictLabel"] == "true" and allowed
+
+
+def clauses_broken(seg, idx):
+    cs = seg[0]
+    V, Tr = set(), set()
+    for e in seg[1:idx]:
+        if e["op"] == "seen":
+            V.add(e["pod"])
+        elif e["op"] == "evict":
+            Tr.add(e["pod"])
+            if e["ok"]:
+                V.add(e["pod"])
+    e = seg[idx]
+    if e["op"] == "ret":
+        return ["Rl"]
+    if e["op"] != "evict":
+        return [e["op"]]
+    ti, p = e.get("task", 0), e["pod"]
+    if not (1 <= ti <= len(cs["tasks"])) or p not in cs["pods"]:
+        return ["unknown-task-or-pod"]
+    t = cs["tasks"][ti - 1]
+    out = []
+    if not _eligible(cs, t, p):
+        out.append("El")
+    if p in V or cs["pods"][p]["already"]:
+        out.append("Tw")
+    if not _short(cs, t, V):
+        out.append("St")
+    if not _useful(cs, t, p, V):
+        out.append("Us")
+    for x in t["list"]:
+        if x != p and _before(cs, t, x, p) and not (x in Tr or x in V or cs["pods"][x]["already"] or not _useful(cs, t, x, V)):
+            out.append("Or")
+            break
+    return out or ["none?"]
+
+
+def sig(fl):
+    e = fl["event"]
+    exp = fl.get("expected")
+    if isinstance(exp, dict) and e.get("op") == "evict" and exp.get("known"):
+        broken = [k for k in ("El", "Tw", "St", "Us", "Or") if exp.get(k) is False]
+    else:
+        try:
+            broken = clauses_broken(fl["segment"], fl["fail_index"])
+        except Exception as ex:  # a label only
+            broken = ["unclassified:%s" % type(ex).__name__]
+    return "op=%s broken=%s" % (e.get("op"), "+".join(broken))
+
+
+_U = "pkg/koordlet/qosmanager/plugins/"
 CONF = {
     "id": "C11", "family": "Evict",
     "mc": [
-        {"module": "MC_Evict", "cfg": "MC_one.cfg", "timeout": 600},
+        {"module": "MC_Evict", "cfg": "MC_one.cfg", "timeout": 900},
+        {"module": "MC_Evict", "cfg": {"quick": "MC_twores_q.cfg", "thorough": "MC_twores.cfg"}, "timeout": 900},
+        {"module": "MC_Evict", "cfg": "MC_twosame_q.cfg", "timeout": 900, "coverage": True},   # every action of the model must fire
+        {"module": "MC_Evict", "cfg": {"quick": None, "thorough": "MC_twosame.cfg"}, "timeout": 1200},
+        {"module": "MC_Evict", "cfg": {"quick": "MC_twodiff_q.cfg", "thorough": "MC_twodiff.cfg"}, "timeout": 1200},
     ],
     "go": [
-        {"pkg": "pkg/koordlet/qosmanager/plugins/util", "test": "TestVerifC11", "pfm": True},
+        {"pkg": _U + "util", "test": "TestVerifC11", "pfm": True},
+        {"pkg": _U + "memoryevict", "test": "TestVerifC11", "pfm": True},
+        {"pkg": _U + "cpuevict", "test": "TestVerifC11", "pfm": True},
     ],
-    "trace": {"module": "EvictTrace", "cfg": "Trace.cfg"},
+    "trace": {"module": "EvictTrace", "cfg": "Trace.cfg", "timeout": {"quick": 600, "thorough": 1500}},
+    "signature": sig,
+    "rule": "one segment = one run of the real eviction loop on one case (enumerated or seeded random); distinct by "
+            "content hash, non-trivial = at least one recorded call or return after the reset",
+    "assumptions": [
+        "pods carry spec.priority (non-zero), as the priority admission plugin guarantees; candidate lists hold no duplicates",
+        "tasks with the same release target describe the same content (their per-pod figures agree where both are "
+        "defined), as in the shipped strategies; BEMemoryEvict+MemoryEvict together is excluded because MemoryEvict "
+        "records a pod's usage times 1000 (reported, outside this property)",
+        "(St) counts the pending release of an already-evicted pod from the moment the loop has asked for it "
+        "(IsPodEvicted); the stronger reading (all such pods count from the start) is reported, not judged",
+        "release target computation is observed (input to the property), not judged",
+    ],
 }
